@@ -278,17 +278,22 @@ def disjoint_cycles(V, tier):
                  ("db", "DB", "dB", "Db"), ("s", "ss", "sss", "ssss"), ("n1", "n11", "n1_1", "n_11"),
                  ("a_b", "c", "a", "b_c"), ("ab", "cd", "abc", "d"), ("p", "q", "pq", "qp")]
     shapes = [[(0, 1), (2, 3)], [(0, 2), (1, 3)], [(0, 3), (1, 2)], [(0, 1, 2), (3,)], [(0,), (1, 2, 3)]]
-    layouts = ["one_file", "two_files"]
+    # *_unknown_first: the members of the first cycle also request names that are NOT fixtures of the workspace (a plugin that
+    # is not installed, a typo), written BEFORE the parameter that continues the cycle; such names are on no dependency chain
+    layouts = ["one_file", "two_files", "one_file_unknown_first", "two_files_unknown_first"]
     cases, ctx = [], {}
     for names in name_sets:
         for shape in shapes:
             if any(len(c) == 1 for c in shape):
                 continue            # a self-requesting fixture with no outer definition is not judged (DESIGN A.3)
-            for lay in layouts:
+            for lay0 in layouts:
+                lay = lay0.replace("_unknown_first", "")
                 deps = {}
-                for cyc in shape:
+                for ci, cyc in enumerate(shape):
                     for k, i in enumerate(cyc):
                         deps[names[i]] = names[cyc[(k + 1) % len(cyc)]]
+                        if lay0.endswith("_unknown_first") and ci == 0:
+                            deps[names[i]] = ("mocker, " if k == 0 else "not_installed_fx, tmp_missing, ") + deps[names[i]]
                 files = {}
                 for j, nm in enumerate(names):
                     path = "/vwsd/conftest.py" if lay == "one_file" or j % 2 == 0 else "/vwsd/sub/conftest.py"
@@ -304,7 +309,7 @@ def disjoint_cycles(V, tier):
                 ops = [{"op": "analyze", "path": p, "text": t} for p, t in sorted(files.items())] + [{"op": "cycles"}]
                 ops += [{"op": "cycles_in_file", "path": p} for p in sorted(files)]
                 cid = len(cases)
-                ctx[cid] = (names, shape, lay, files)
+                ctx[cid] = (names, shape, lay0, files)
                 cases.append({"id": cid, "ops": ops})
     for res in C.run_harness(cases):
         names, shape, lay, files = ctx[res["id"]]
